@@ -138,6 +138,19 @@ def run(repo: Repo, rep: Report, tier: str) -> None:
                   f"snapshot `{norm(snaps[0][0])[:60]}`, restored on every normal exit" if not leak else
                   "a normal exit after the body does not pass the restore", inl.loc(restores[0]))
 
+    rep.rule("C15-R6", "entities the callee created are merged back into the caller's map only under names the caller did not have before the call (a callee local never rebinds a caller's entity name)")
+    upd = [s_ for s_ in cfg.stmts() if isinstance(s_, ast.Expr) and isinstance(s_.value, ast.Call) and isinstance(s_.value.func, ast.Attribute) and s_.value.func.attr == "update"
+           and _lowerer_attr(s_.value.func.value) == "entity_refs" and not cfg.dominates(s_, loop)]
+    for u in upd:
+        arg = u.value.args[0]
+        comps = [v for v in du.value_exprs(arg.id)] if isinstance(arg, ast.Name) else [arg]
+        comp = next((v for v in comps if isinstance(v, ast.DictComp)), None)
+        snap_names = {nm for _, nm in [(None, x) for x in du.defs if any("entity_refs" in norm(v) and ".copy()" in norm(v) for v in du.value_exprs(x))]}
+        ok = comp is not None and any(isinstance(c, ast.Compare) and isinstance(c.ops[0], ast.NotIn) and norm(c.comparators[0]) in snap_names and norm(c.left) == norm(comp.key)
+                                      for g in comp.generators for i in g.ifs for c in ([i] + (list(i.values) if isinstance(i, ast.BoolOp) else [])))
+        rep.check(ok, "C15-R6", "callee-created entities are merged back only under new names",
+                  norm(comp)[:120] if comp is not None else norm(u), inl.loc(u))
+
     # ---------------- R2 ---------------------------------------------------------------
     rep.rule("C15-R2", "while the callee body is lowered the parameter environment holds only the callee's parameters: "
              "merging (`.update`) into the live map keeps the caller's parameters visible to the callee (identifier lookup consults parameters first)")
